@@ -771,6 +771,13 @@ func init() {
 		return nil, true
 	})
 	reg("time.Sleep", intrinsics["runtime.Gosched"])
+	reg("runtime.NumCPU", func(ex *Exec, g *G, fn *ssa.Function, a []Value) (Value, bool) {
+		ex.noteAssume("runtime.NumCPU() = 2")
+		return ex.intTerm(2), true
+	})
+	reg("runtime.GOMAXPROCS", func(ex *Exec, g *G, fn *ssa.Function, a []Value) (Value, bool) {
+		return ex.intTerm(2), true
+	})
 
 	// ---- sort.Slice / SliceStable: insertion sort driving the real less closure --------------------
 	sortSlice := func(ex *Exec, g *G, fn *ssa.Function, a []Value) (Value, bool) {
